@@ -57,9 +57,15 @@ def point_based_value_iteration(
     if horizon is None:
         rmax = pomdp.state_action_reward_matrix.max().item()
         rmin = pomdp.state_action_reward_matrix.min().item()
-        horizon = value_convergence_epsilon / (rmax - rmin)
-        horizon = np.log(horizon) / np.log(pomdp.discount_rate)
-        horizon = int(np.ceil(horizon))
+        reward_span = rmax - rmin
+        if reward_span == 0: # constant rewards: bound the tail by their magnitude
+            reward_span = abs(rmax)
+        if reward_span == 0: # all rewards are 0, so are all values
+            horizon = 1
+        else:
+            horizon = value_convergence_epsilon / reward_span
+            horizon = np.log(horizon) / np.log(pomdp.discount_rate)
+            horizon = int(np.ceil(horizon))
 
     tf = pomdp.transition_matrix
     sa_rf = pomdp.state_action_reward_matrix
